@@ -61,6 +61,8 @@ LifeCycleOK(c) == LET s == LifeCycle(c) IN
 \* ---- (3) resolve counts ---------------------------------------------------------
 IdxStrs == {"#" \o ToString(i) : i \in 0..64}
 IsItemPath(p) == Len(p) > 0 /\ p[Len(p)] \in IdxStrs
+RECURSIVE FieldPath(_)
+FieldPath(p) == IF IsItemPath(p) THEN FieldPath(SubSeq(p, 1, Len(p) - 1)) ELSE p
 Count(c, P(_)) == Cardinality({i \in 1..Len(c.obs.log) : P(c.obs.log[i])})
 ResolveCountsOK(c) ==
   \A x \in 1..c.exts :
@@ -73,7 +75,7 @@ ResolveCountsOK(c) ==
          LET e == c.obs.log[i] IN
          (e.ev = "hook-enter" /\ e.hook = "resolve" /\ e.ext = x) =>
             IF IsItemPath(e.path)
-            THEN LET parent == SubSeq(e.path, 1, Len(e.path) - 1) IN
+            THEN LET parent == FieldPath(e.path) IN   \* nested lists: [f, #0, #1] belongs to the field at [f]
                  Count(c, LAMBDA f : f.ev = "hook-enter" /\ f.hook = "resolve" /\ f.ext = x /\ f.path = e.path)
                    <= Count(c, LAMBDA f : f.ev = "finish" /\ f.path = parent /\ f.items >= 0)
             ELSE Count(c, LAMBDA f : f.ev = "start" /\ f.path = e.path) >= 1
